@@ -79,7 +79,7 @@ def d21_make_child_pops_root(prop, mech, case, info, variant):
     empty root segment and the following segment is promoted into its place
     (an empty segment is lost, e.g. URL('http://h') / '..//b' -> '/b' instead of
     '//b').  Bug model: result == normalisation with a poppable root marker."""
-    if mech != "path_mismatch" or case.get("entry") not in ("div", "joinpath_all", "joinpath_steps", "joinpath_grouped", "joinpath_all_encoded"):
+    if mech != "path_mismatch" or case.get("entry") not in ("div", "joinpath_all", "joinpath_steps", "joinpath_grouped", "joinpath_all_encoded", "div_encoded_base", "joinpath_encoded_base"):
         return False
     spliced = info.get("_spliced")
     got = info.get("got")
